@@ -45,6 +45,15 @@ def verify_F(prop):
             out.append(v)
         except Exception as e:
             out.append(Verdict('no_state_kept_across_calls', 'F', 'undecided', f'analysis error: {type(e).__name__}: {e}', 0.0, f'{mod}.{qual}', 'frame'))
+    if prop == 'C17':
+        t0 = time.time()
+        try:
+            st, det = frame.check_truth_value_use('opgraph', 'OpGraph.from_automaton')
+        except Exception as e:
+            st, det = 'undecided', f'analysis error: {type(e).__name__}: {e}'
+        v = Verdict('callback_result_used_by_truth_value', 'F', st, det, time.time() - t0, 'opgraph.OpGraph.from_automaton', 'frame')
+        v.confirm = ['from_automaton']
+        out.append(v)
     if prop in ('C18', 'C19'):
         for name, status, detail in frame.check_reinit('bipartite_graph', 'HopcroftKarp', '__call__'):
             v = Verdict(name, 'F', status, detail, 0.0, 'bipartite_graph.HopcroftKarp.__call__', 'frame')
